@@ -240,7 +240,12 @@ class SymEval:
             if r is NotImplemented and isinstance(v, int) and not isinstance(v, bool):
                 bits = {"u8": 8, "u16": 16, "u32": 32, "u64": 64, "usize": 64, "Word": 32, "spirv::Word": 32}.get(e[2].replace(" ", ""))
                 return v & ((1 << bits) - 1) if bits else v
-            return v if r is NotImplemented else r
+            if r is NotImplemented:
+                # a cast of a value the evaluator does not know numerically is kept visible: dropping it would equate `x as f32` with `x`
+                if isinstance(v, tuple) and v and v[0] not in ("enum", "struct", "list", "fmt", "str", "some", "ok", "err", "none", "unit", "tuple", "cell"):
+                    return ("as", v, e[2].replace(" ", ""))
+                return v
+            return r
         if k == "tuple":
             return ("tuple", [self.ev(x, env) for x in e[1]]) if e[1] else UNIT
         if k == "return":
@@ -1288,6 +1293,8 @@ class SymEval:
             return ("some", self.apply(args[0], [])) if recv else NONE
         if isinstance(recv, bool) and m == "then_some" and len(args) == 1:
             return ("some", args[0]) if recv else NONE
+        if m == "to_string" and not args and not (isinstance(recv, tuple) and recv and recv[0] in ("str", "fmt", "join", "text", "utf8")):
+            return ("fmt", [("hole", recv, "")])        # the Display rendering of a value is not the value
         if m in ("clone", "to_owned", "into", "as_str", "as_ref", "borrow", "to_string") and not args:
             return recv
         self.fail("method call", e)
